@@ -112,14 +112,15 @@ class PathEnum:
     def _evkey(self, place):
         """Place key used in events: inside an inlined callee, places reached through a `&mut` parameter are
         named in the root function's namespace; the callee's own locals get the frame as a prefix."""
+        from .core import canon_key
         key = pp.place_s(place)
         if not self.frame:
-            return key
+            return canon_key(key)
         l = place["local"]
         tok = "(*_%d)" % l
         base = self.rootbind.get(l)
         if base is not None and tok in key:
-            return key.replace(tok, base)
+            return canon_key(key.replace(tok, base))
         return "%s:%s" % (self.frame, key)
 
     # ----- terms under a path environment
@@ -390,7 +391,7 @@ class PathEnum:
                         ct = ("agg", "std::ops::ControlFlow", "Continue", args[0][3])
                     else:
                         ct = ("agg", "std::ops::ControlFlow", "Break", (args[0],))
-                elif path == "std::ops::Try::branch" and args and args[0][0] == "call" and args[0][1] == "std::ops::FromResidual::from_residual":
+                elif path == "std::ops::Try::branch" and args and _under_map_err(args[0])[0] == "call" and _under_map_err(args[0])[1] == "std::ops::FromResidual::from_residual":
                     # `?` applied to a value that is itself a propagated residual: always breaks
                     ct = ("agg", "std::ops::ControlFlow", "Break", (("residual", args[0]),))
                 elif path == "std::ops::Try::branch" and args and args[0][0] != "agg":
@@ -784,6 +785,13 @@ _VARIANT_KEEPING = (
     "std::option::Option::<T>::as_ref", "std::option::Option::<T>::as_mut", "std::option::Option::<T>::as_deref",
     "std::option::Option::<T>::as_deref_mut", "std::result::Result::<T, E>::as_ref", "std::result::Result::<T, E>::as_mut",
 )
+
+
+def _under_map_err(x):
+    """x with `Result::map_err(.., f)` layers removed (they keep the variant)."""
+    while x[0] == "call" and x[1] == "std::result::Result::<T, E>::map_err" and len(x[2]) == 2:
+        x = x[2][0]
+    return x
 
 
 def _discr_subject(t):
